@@ -175,6 +175,7 @@ func Shrink(h *History, prop, class string, eval evalFn, budget int) *History {
 		func(c *Config) { c.Recover = false },
 		func(c *Config) { c.Defer = false },
 		func(c *Config) { c.PanicKind = 0 },
+		func(c *Config) { c.ValMask = 0 },
 	} {
 		c := cur.Clone()
 		mut(&c.Cfg)
